@@ -141,6 +141,34 @@ CLAIMED = {
              "any pthread call on a destroyed primitive and sanitizer reports are violations.",
         ref="5/C10", technique="TLA+ model checking incl. liveness (TLC, PlusCal) + schedule replay through cooperative scheduler with hooks + TLC trace validation",
         note="Sequential consistency at scheduling-point granularity; configurations beyond 2 clients x 1 future only by random/PCT schedules; queue capacity 1 combined with worker retirement is excluded as unreachable with the shipped constants (DESIGN 5/C10)."),
+    "C01": dict(
+        text="TLC model-checks OrderedMap.tla (reference sorted (multi)map incl. hinted inserts, returned iterators and the "
+             "comparison bound 2*floor(1.4405*log2(n+2)) from an exact integer table) and AvlImpl.tla (branch-by-branch "
+             "transcription of Map.hpp / MultiMap.hpp: descent, threaded list, all five removal cases, both rebalance loops, the "
+             "four rotations, hinted-insert branches, find/count, copy loops; invariants BST order, balance, stored heights, parent "
+             "and thread links, lookup bound, refinement); every edge of the state graphs (Map keys 1..6/8 quick, 1..9/11 thorough; "
+             "MultiMap <= 6/9 entries over 3 keys) and seeded random histories with up to 2000 keys run on the real classes; every "
+             "step (projection, returned iterator, count/contains, find of every present key with its comparison count) is "
+             "validated by TLC against OrderedMap; node-for-node shape is compared with AvlImpl as drift only.",
+        ref="5/C01", technique="TLA+ refinement model checking (TLC) + state-graph replay + TLC trace validation",
+        note="Trusts TLC, the driver projection (diff-encoded for large trees), comparison counting in the key type; bound evaluated for n <= 2048."),
+    "C02": dict(
+        text="TLC model-checks OrderedTable.tla (insertion-ordered unique-key table, per-class insert variants) and "
+             "HashChainsImpl.tla (bucket chains with cell back-pointers, order list with end sentinel, free list / blocks, swap "
+             "statement by statement; invariants chain membership on hash % capacity, back-pointer consistency, acyclicity, "
+             "refinement) for capacities 1, 2, 3 and 500; every edge of the state graphs is replayed on the real HashMap, HashSet "
+             "and PoolMap with an identity hash (controlled collisions) plus random histories over two variables with bucket "
+             "counts {1,2,3,7,500}; every event validated by TLC against OrderedTable.",
+        ref="5/C02", technique="TLA+ refinement model checking (TLC) + state-graph replay + TLC trace validation",
+        note="Identity hash only (String hash not exercised); Layer 2 covers <= 4 live items (one block), more only by random histories."),
+    "C03": dict(
+        text="TLC model-checks RefSeq.tla (reference sequence with designated ids for returned iterators; sort = ascending "
+             "permutation), ArrayImpl.tla (block, capacity rule, shifting removal, copy/assign) and ListSortImpl.tla (the in-place "
+             "quicksort statement by statement: postcondition, scan pointer bounds, progress) for ALL value sequences of length <= "
+             "6/7 over 3-4 values; every Array graph edge, the real List::sort on all sequences of length <= 6/8 over {1,2,3,4} and "
+             "random histories over List, Array and PoolList are validated by TLC against RefSeq.",
+        ref="5/C03", technique="TLA+ refinement model checking (TLC) + state-graph replay + exhaustive sort inputs + TLC trace validation",
+        note="Array::capacity() not judged (statement silent); PoolList::front/back do not compile when instantiated and are not called."),
 }
 
 PENDING_REASON = "check not built yet in this revision of /verif (planned: see DESIGN.md section 5); not claimed until its machinery runs"
